@@ -14,7 +14,10 @@ def run(ck):
              "an origin that did put,put,delete with either half first; join after deletes; delete delivered before an older put "
              "of the same origin; duplicated batch with a restart; fetch racing with a delete) and random schedules of 4-26 events "
              "(client put/put_many/del/del_many at any level with links up or down, batches re-sent/duplicated/after restarts, "
-             "complete exchanges, the three steps of an exchange interleaved with other events, purges, restarts; stalled and "
+             "complete exchanges, the three steps of an exchange interleaved with other events, purges, restarts, exchanges RACING with "
+             "writes on the polled node (one write held inside its storage call while GetState queues behind it and a second write "
+             "behind that; the observation records which legal serialisation happened), an exchange whose storage writes all fail "
+             "(named schedule: the node must stay as it is and pull everything later); stalled and "
              "backward wall clock), each ending with every ordered pair completing one exchange. After every event the touched "
              "nodes' set (as a peer would fetch it) and store are compared with the model; at quiescence the oracle checks on the "
              "implementation that every node serves exactly the last-writer-wins documents (ids, bytes, stamps) of the operations "
